@@ -53,6 +53,8 @@ class Run(OpsMixin, CallsMixin):
         self.region = {}          # address sexpr -> private list region (local, non-escaping lists)
         self.local_lists = set()
         self.alloc_region = None
+        self.ycount = z3.IntVal(0)        # ghost: number of items yielded so far (generator functions)
+        self.yconcat = z3.StringVal('')   # ghost: concatenation of the str items yielded so far
         self.known_cls = {}       # address sexpr -> class id (classes never change after allocation)
         self.cls_terms = {}
 
@@ -531,7 +533,32 @@ class Run(OpsMixin, CallsMixin):
     def st_Expr(self, st):
         if isinstance(st.value, ast.Constant):
             return
+        if isinstance(st.value, ast.Yield):
+            self.do_yield(st.value, st)
+            return
         self.ev(st.value)
+
+    def do_yield(self, node, st):
+        """`yield e` in a generator function under contract: the item is appended to the ghost output (count and, for
+        str items, concatenation) and must satisfy every `yields(...)` clause."""
+        if len(self.frames) != 1:
+            raise OutOfSubset('yield in an inlined function')
+        v = self.val(self.ev(node.value)) if node.value is not None else VNone
+        fr = self.frames[-1]
+        saved = fr.env.get('item')
+        fr.env['item'] = v
+        for cl in self.contract.of('yields'):
+            self.oblige(self.ev_spec(cl.expr), 'yield', cl.tag or ('yields@%d' % cl.line), st, cl.props)
+        if saved is None:
+            fr.env.pop('item', None)
+        else:
+            fr.env['item'] = saved
+        self.ycount = z3.simplify(self.ycount + 1)
+        t = static_tag(v) or self.tagcache.get(v.sexpr())
+        if t == 'VStr':
+            self.yconcat = z3.simplify(z3.Concat(self.yconcat, Value.s(v)))
+        else:
+            self.yconcat = self.fresh('yc', S)
 
     def st_Pass(self, st):
         pass
@@ -589,6 +616,8 @@ class Run(OpsMixin, CallsMixin):
     def st_Raise(self, st):
         if st.exc is None:
             raise OutOfSubset('bare raise')
+        if st.cause is not None and not (isinstance(st.cause, ast.Constant) and st.cause.value is None):
+            self.ev(st.cause)
         e = st.exc
         name = None
         if isinstance(e, ast.Call):
@@ -699,6 +728,10 @@ class Run(OpsMixin, CallsMixin):
 
     def havoc_loop(self, node, extra_names=()):
         fr = self.frames[-1]
+        if any(isinstance(n, ast.Yield) for stt in node.body for n in ast.walk(stt)):
+            self.ycount = self.fresh('ycount', I)
+            self.assume(self.ycount >= 0)
+            self.yconcat = self.fresh('yconcat', S)
         names = self.assigned_names(node.body) | set(extra_names)
         for n in sorted(names):
             if n in fr.env and isinstance(fr.env[n], (FuncVal, Builtin, LambdaVal, ClassVal, Const)):
